@@ -380,6 +380,8 @@ def refused_at_the_end(rng):
 
 def run(ctx):
     for _ in range(ctx.budget(40, 800)):
+        check_case(ctx, emodify.retarget_of_a_deleted_block(ctx.rng))
+    for _ in range(ctx.budget(40, 800)):
         case = refused_at_the_end(ctx.rng)
         if case is not None:
             check_case(ctx, case)
